@@ -234,7 +234,16 @@ class FlatSet : private Compare {
 
   template <class InputIt>
   void insert(InputIt first, InputIt last) {
-    miterator insertIt = _sortedVector.insert(_sortedVector.end(), first, last);
+    size_type oldSize = size();
+    miterator insertIt;
+    try {
+      insertIt = _sortedVector.insert(_sortedVector.end(), first, last);
+    } catch (...) {
+      // The underlying vector may only provide the basic guarantee for this insert (std::vector with input iterators):
+      // remove the elements that could have been appended, they are not sorted yet
+      _sortedVector.erase(_sortedVector.begin() + oldSize, _sortedVector.end());
+      throw;
+    }
     // sort appended elements only (beginning is already sorted)
     std::sort(insertIt, mend(), compRef());
     std::inplace_merge(mbegin(), insertIt, mend(), compRef());
